@@ -119,12 +119,23 @@ func (c *Channel) withdrawSubChannel(ctx context.Context, sub *Channel) error {
 	return errors.WithMessage(err, "update parent channel")
 }
 
-func (c *Channel) registerSubChannelFunding(id channel.ID, alloc []channel.Bal) {
+func (c *Channel) registerSubChannelFunding(id channel.ID, bals channel.Balances) {
 	filter := func(cu ChannelUpdate) bool {
-		expected := *channel.NewSubAlloc(id, alloc, nil)
-		_, containedBefore := c.machine.State().SubAlloc(expected.ID)
-		subAlloc, containedAfter := cu.State.SubAlloc(expected.ID)
-		return !containedBefore && containedAfter && expected.Equal(&subAlloc) == nil
+		cur := c.machine.State()
+		expected := *channel.NewSubAlloc(id, bals.Sum(), nil)
+		_, containedBefore := cur.SubAlloc(expected.ID)
+		if containedBefore || len(cu.State.Locked) != len(cur.Locked)+1 {
+			return false
+		}
+		// The sub-allocation is appended and nothing else is locked or unlocked.
+		n := len(cur.Locked)
+		if expected.Equal(&cu.State.Locked[n]) != nil ||
+			channel.SubAllocsAssertEqual(cur.Locked, cu.State.Locked[:n]) != nil {
+			return false
+		}
+		// Every participant pays exactly its initial sub-channel balance.
+		return cur.Balances.AssertGreaterOrEqual(bals) == nil &&
+			cur.Balances.Sub(bals).Equal(cu.State.Balances)
 	}
 	ui := newUpdateInterceptor(filter)
 	c.subChannelFundings.Register(id, ui)
@@ -132,11 +143,19 @@ func (c *Channel) registerSubChannelFunding(id channel.ID, alloc []channel.Bal) 
 
 func (c *Channel) registerSubChannelSettlement(id channel.ID, bals [][]channel.Bal) {
 	filter := func(cu ChannelUpdate) bool {
-		_, containedBefore := c.machine.State().SubAlloc(id)
+		cur := c.machine.State()
+		subAlloc, containedBefore := cur.SubAlloc(id)
 		_, containedAfter := cu.State.SubAlloc(id)
-		equalBalances := c.machine.State().Balances.Add(bals).Equal(cu.State.Balances)
-
-		return containedBefore && !containedAfter && equalBalances
+		if !containedBefore || containedAfter {
+			return false
+		}
+		// Only the settled sub-channel's sub-allocation is removed.
+		expected := cur.Clone()
+		if expected.RemoveSubAlloc(subAlloc) != nil ||
+			channel.SubAllocsAssertEqual(expected.Locked, cu.State.Locked) != nil {
+			return false
+		}
+		return cur.Balances.Add(bals).Equal(cu.State.Balances)
 	}
 	ui := newUpdateInterceptor(filter)
 	c.subChannelWithdrawals.Register(id, ui)
